@@ -7,6 +7,9 @@ R16.1 best-so-far is what maximise returns (reaching definitions + finally)
 R16.2 every evaluation is tracked, the start included (wrapper-chain order)
 R16.3 bounds: order of the wrappers and of the (lower, upper) pair end to end
 R16.4 the controller state is written back in a finally
+
+Added in build round 2 (see DESIGN.md section 3, round-2 table):
+R16.5 nested-model initialisation: the projection (_ParamProjection.update_param_rules) writes the projected value of every rule under one key; the ...
 """
 
 from __future__ import annotations
